@@ -630,6 +630,8 @@ class _NumericOperationsImpl(OperationsBlock):
             axes = [axis]
         else:
             axes = axis  # type: ignore
+        # onnxruntime mishandles negative axes when reducing zero-size input
+        axes = [ax + x.ndim if ax < 0 else ax for ax in axes]
 
         if isinstance(x.dtype, dtypes.NullableFloating):
             fill_value = ndx.asarray(
@@ -669,6 +671,8 @@ class _NumericOperationsImpl(OperationsBlock):
             axes = [axis]
         else:
             axes = axis  # type: ignore
+        # onnxruntime mishandles negative axes when reducing zero-size input
+        axes = [ax + x.ndim if ax < 0 else ax for ax in axes]
 
         if isinstance(x.dtype, dtypes.NullableFloating):
             fill_value = ndx.asarray(
@@ -709,6 +713,8 @@ class _NumericOperationsImpl(OperationsBlock):
             axes = [axis]
         else:
             axes = axis  # type: ignore
+        # onnxruntime mishandles negative axes when reducing zero-size input
+        axes = [ax + x.ndim if ax < 0 else ax for ax in axes]
 
         x = x.astype(_determine_reduce_op_dtype(x, dtype, dtypes.uint32))
 
@@ -806,6 +812,8 @@ class _NumericOperationsImpl(OperationsBlock):
             axes = [axis]
         else:
             axes = axis  # type: ignore
+        # onnxruntime mishandles negative axes when reducing zero-size input
+        axes = [ax + x.ndim if ax < 0 else ax for ax in axes]
 
         x = x.astype(_determine_reduce_op_dtype(x, dtype, dtypes.uint64))
 
